@@ -84,6 +84,18 @@ def classChar (s : Bytes) : Option (UInt8 × Bytes) :=
   | 92 :: [] => none
   | c :: rest => if c ≥ 128 || c == 91 then none else some (c, rest)
 
+/-- after the first byte `lo` of an item: `lo-hi` (unless the `-` closes the expression), or the single byte;
+    `k` reads the remaining items -/
+def classTail (k : Bytes → List (UInt8 × UInt8) → Option (List (UInt8 × UInt8) × Bytes)) (lo : UInt8) (rest1 : Bytes)
+    (acc : List (UInt8 × UInt8)) : Option (List (UInt8 × UInt8) × Bytes) :=
+  match rest1 with
+  | 45 :: 93 :: _ => k rest1 (acc ++ [(lo, lo)])
+  | 45 :: rest2 =>
+    match classChar rest2 with
+    | some (hi, rest3) => if lo ≤ hi then k rest3 (acc ++ [(lo, hi)]) else none
+    | none => none
+  | _ => k rest1 (acc ++ [(lo, lo)])
+
 /-- the items of a bracket expression up to the closing `]` -/
 def classItems : Nat → Bytes → List (UInt8 × UInt8) → Option (List (UInt8 × UInt8) × Bytes)
   | 0, _, _ => none
@@ -97,35 +109,26 @@ def classItems : Nat → Bytes → List (UInt8 × UInt8) → Option (List (UInt8
     else
       match classChar (92 :: c :: rest) with
       | none => none
-      | some (lo, rest1) =>
-        match rest1 with
-        | 45 :: 93 :: _ => classItems fuel rest1 (acc ++ [(lo, lo)])
-        | 45 :: rest2 =>
-          match classChar rest2 with
-          | some (hi, rest3) => if lo ≤ hi then classItems fuel rest3 (acc ++ [(lo, hi)]) else none
-          | none => none
-        | _ => classItems fuel rest1 (acc ++ [(lo, lo)])
+      | some (lo, rest1) => classTail (classItems fuel) lo rest1 acc
   | fuel + 1, s, acc =>
     match classChar s with
     | none => none
-    | some (lo, rest1) =>
-      match rest1 with
-      | 45 :: 93 :: _ => classItems fuel rest1 (acc ++ [(lo, lo)])
-      | 45 :: rest2 =>
-        match classChar rest2 with
-        | some (hi, rest3) => if lo ≤ hi then classItems fuel rest3 (acc ++ [(lo, hi)]) else none
-        | none => none
-      | _ => classItems fuel rest1 (acc ++ [(lo, lo)])
+    | some (lo, rest1) => classTail (classItems fuel) lo rest1 acc
 
-/-- after `[` -/
-def pClass (ci : Bool) (s : Bytes) : Option (Re × Bytes) :=
-  let (neg, s) := match s with | 94 :: rest => (true, rest) | _ => (false, s)
+/-- the items after `[` or `[^` -/
+def pClassBody (ci neg : Bool) (s : Bytes) : Option (Re × Bytes) :=
   match s with
   | 93 :: _ => none          -- a leading `]` is a literal in RE2: outside the fragment
   | _ =>
     match classItems (s.length + 1) s [] with
     | some (rs, rest) => some (mkCls ci neg rs, rest)
     | none => none
+
+/-- after `[` -/
+def pClass (ci : Bool) (s : Bytes) : Option (Re × Bytes) :=
+  match s with
+  | 94 :: rest => pClassBody ci true rest
+  | _ => pClassBody ci false s
 
 def isQuant (c : UInt8) : Bool := c == 42 || c == 43 || c == 63
 
@@ -171,6 +174,19 @@ def startsRepeat (s : Bytes) : Bool :=
   | c :: _ => isQuant c
   | [] => false
 
+/-- a lazy marker after a repetition operator (`*?`, `{2,3}?`): the same language -/
+def stripLazy (r : Bytes) : Bytes :=
+  match r with
+  | 63 :: r' => r'
+  | _ => r
+
+/-- after `(`: the body of a capturing or `(?:` group; any other `(?…` is outside the fragment -/
+def groupInner (rest : Bytes) : Option Bytes :=
+  match rest with
+  | 63 :: 58 :: r => some r
+  | 63 :: _ => none
+  | r => some r
+
 mutual
 /-- alternation -/
 def pAlt : Nat → Bool → Bytes → Option (Re × Bytes)
@@ -206,15 +222,14 @@ def pRep : Nat → Bool → Bytes → Option (Re × Bytes)
     | none => none
     | some (a, q :: rest) =>
       if isQuant q then
-        let rest := match rest with | 63 :: r => r | r => r      -- `*?` `+?` `??`
-        if startsRepeat rest then none else some (applyQuant q a, rest)   -- `a**`: RE2 rejects it
+        -- `*?` `+?` `??`; `a**`: RE2 rejects it
+        if startsRepeat (stripLazy rest) then none else some (applyQuant q a, stripLazy rest)
       else if q == 123 then
         match pCount rest with
         | none => some (a, q :: rest)          -- `{` not followed by a count: a literal, read by the next atom
         | some none => none
         | some (some (n, m, rest')) =>
-          let rest' := match rest' with | 63 :: r => r | r => r
-          if startsRepeat rest' then none else some (applyCount a n m, rest')
+          if startsRepeat (stripLazy rest') then none else some (applyCount a n m, stripLazy rest')
       else some (a, q :: rest)
     | some (a, []) => some (a, [])
 
@@ -222,11 +237,7 @@ def pAtom : Nat → Bool → Bytes → Option (Re × Bytes)
   | 0, _, _ => none
   | _ + 1, _, [] => none
   | fuel + 1, ci, 40 :: rest =>                       -- `(` … `)`
-    let inner : Option Bytes := match rest with
-      | 63 :: 58 :: r => some r                       -- `(?:`
-      | 63 :: _ => none                               -- other `(?…`: outside the fragment
-      | r => some r
-    match inner with
+    match groupInner rest with
     | none => none
     | some r =>
       match pAlt fuel ci r with
@@ -249,12 +260,15 @@ def pAtom : Nat → Bool → Bytes → Option (Re × Bytes)
     else some (mkCls ci false [(c, c)], rest)
 end
 
-/-- the whole pattern; a leading `(?i)` switches ASCII case folding on -/
+/-- a leading `(?i)` switches ASCII case folding on -/
+def splitFlags (p : Bytes) : Bool × Bytes :=
+  match p with
+  | 40 :: 63 :: 105 :: 41 :: rest => (true, rest)
+  | _ => (false, p)
+
+/-- the whole pattern -/
 def parse (p : Bytes) : Option Re :=
-  let (ci, s) := match p with
-    | 40 :: 63 :: 105 :: 41 :: rest => (true, rest)
-    | _ => (false, p)
-  match pAlt (4 * s.length + 8) ci s with
+  match pAlt (4 * (splitFlags p).2.length + 8) (splitFlags p).1 (splitFlags p).2 with
   | some (r, []) => some r
   | _ => none
 
